@@ -95,6 +95,11 @@ def cases(tier, seed):
         recs.append((['perm', ['disjoint', ['named', 'path', int(rs.randint(3, 6))], ['named', 'complete', 1]], int(rs.randint(1 << 30))], False))
     for i, (g, d) in enumerate(recs):
         out.append({'g': g, 'directed': d, 'ws': seed * 100 + i})
+    for g in G.many_paths(34 if thorough else 28):
+        out.append({'g': g, 'directed': g[-1] is True, 'ws': 1})
+    for g in G.many_paths(200 if thorough else 131):
+        if len(G.build(g)) > 34:
+            out.append({'g': g, 'directed': g[-1] is True, 'ws': 1, 'only': ['distance_wei~bin', 'distance_bin~binarized', 'reachdist~binarized']})
     return out
 
 
@@ -111,8 +116,11 @@ def run(case, bct, REC):
     sym = not directed
     W = G.weigh(A, 'real', case['ws'], symmetric=sym)
     Wd = G.weigh(A, 'dyad', case['ws'] + 1, symmetric=sym)
-    inputs = {'dir01': [A], 'sym01': [A] if sym else [], 'symw': [W, Wd] if sym else [], 'anyw': [W, Wd]}
+    Wl = G.weigh(A, 'logu', case['ws'] + 2, symmetric=sym)   # magnitudes down to 1e-12: still connections
+    inputs = {'dir01': [A], 'sym01': [A] if sym else [], 'symw': [W, Wd, Wl] if sym else [], 'anyw': [W, Wd, Wl]}
     for name, (cls, fa, fb) in PAIRS.items():
+        if case.get('only') and name not in case['only']:
+            continue
         for X in inputs[cls]:
             REC.tag(PROP, 'exec')
             ra = rb = None
